@@ -20,9 +20,15 @@ backends = [
 
 for mod in backends:
     if mod[1] in sys.modules:
-        backend_name = mod[0]
-        backend = sys.modules[mod[1]]
-        break
+        if backend is None:
+            backend_name = mod[0]
+            backend = sys.modules[mod[1]]
+        elif mod[1].startswith(backend.__name__):
+            # libsnarkgg, zkifbellman and zkifbulletproofs import (and reconfigure) their base
+            # module pysnark.*.backend: the derived module is the backend that was asked for
+            backend_name = mod[0]
+            backend = sys.modules[mod[1]]
+            break
 
 if backend is None and "PYSNARK_BACKEND" in os.environ:
     for mod in backends:
